@@ -24,7 +24,7 @@ import warnings
 
 import torch
 
-from . import common, opbuild as ob, c14_names, c14_ctors
+from . import common, opbuild as ob, c14_names, c14_ctors, c14_seq as sq
 
 PROP = "C14"
 SH = 350
@@ -247,6 +247,8 @@ def xval(v, dtype):
             return build(v, dtype)
         if "shape" in v and "data" in v:
             return ob.tt(v, dtype)
+        if "deft" in v:
+            return sq.make_deft(v["deft"])          # no dtype=: the default dtype current at construction time
         if "size" in v:
             return torch.Size(v["size"])
         if "dtype" in v:
@@ -269,7 +271,10 @@ def build(e, dtype):
     if e["cls"] == "X":
         import linear_operator.operators as O
         k = ob.user_minimal_class() if e["py"] == "UserMinimal" else getattr(O, e["py"])
-        return k(*[xval(a, dtype) for a in e.get("args", [])], **{n: xval(v, dtype) for n, v in e.get("kwargs", {}).items()})
+        o = k(*[xval(a, dtype) for a in e.get("args", [])], **{n: xval(v, dtype) for n, v in e.get("kwargs", {}).items()})
+        for step in e.get("then", []):              # construction history: conversions applied before the case starts
+            o = sq.apply_then(o, step)
+        return o
     if any(isinstance(v, dict) and v.get("cls") == "X" for v in sub_exprs(e)):
         return _build_mixed(e, dtype)
     return ob.build(e, dtype)
@@ -489,10 +494,19 @@ def storages(o, out=None):
 
 
 class Case:
-    __slots__ = ("e", "src", "defdt", "rg", "q", "oin", "n0", "obs", "exc", "fails", "ok_abs", "extra", "cell")
+    __slots__ = ("e", "src", "defdt", "rg", "q", "oin", "n0", "obs", "exc", "fails", "ok_abs", "extra", "cell",
+                 "defdt0", "dt0", "incons", "mixed", "snap0", "d_in", "d_in_exc")
 
     def spec(self):
-        return {"expr": self.e, "src": self.src, "default_dtype": self.defdt, "requires_grad": self.rg, "query": list(self.q)}
+        d = {"expr": self.e, "src": self.src, "default_dtype": self.defdt, "requires_grad": self.rg, "query": list(self.q)}
+        if self.defdt0 is not None:
+            d["construction_default_dtype"] = self.defdt0     # torch default dtype while the operator was constructed
+        if self.mixed:
+            d["mixed"] = True
+        return d
+
+    def hist(self):
+        return "default-changed" if self.defdt0 not in (None, self.defdt) else "none"
 
 
 def returned_dtype_failures(op, want, tag):
@@ -527,7 +541,7 @@ def returned_dtype_failures(op, want, tag):
 
 NOMINAL = ("CPermutation", "CTransposePermutation")     # classes without floating data: the dtype is a nominal constant
 CONVERTING = ("double", "float", "type", "to")
-PRIORITY = ["raises", "silent", "not-an-operator", "class", "arity", "kind", "flag", "kwarg", "shape", "leaf", "index-cast",
+PRIORITY = ["aliased-result", "source-changed", "raises", "silent", "not-an-operator", "class", "arity", "kind", "flag", "kwarg", "shape", "leaf", "index-cast",
             "leaf-dtype", "dtype", "requires_grad", "shared-storage", "dense-value", "returned-dtype", "representation"]
 
 
@@ -552,12 +566,13 @@ def direct_check(case, o, res, exc, meta, heavy=True):
     if q[0] == "dtype":
         if exc is not None:
             fails.append({"fail": "raises:" + exc.split(":")[0], "exc": exc})
-        elif res != NDT[src] and (has_float or case.oin[1] not in NOMINAL):
+        elif has_float and res != NDT[src]:
+            # (an operator without any floating data has only its nominal dtype: nothing to compare it with)
             fails.append({"fail": "dtype", "got": str(res), "want": src})
         return fails
     if q[0] == "returned":
         if o.dtype is not None:
-            fails += returned_dtype_failures(o, NDT[src] if (has_float or case.oin[1] not in NOMINAL) else o.dtype, "original")
+            fails += returned_dtype_failures(o, NDT[src] if has_float else o.dtype, "original")
         return fails
     if q[0] == "repr":
         if has_other:
@@ -587,7 +602,7 @@ def direct_check(case, o, res, exc, meta, heavy=True):
         fails.append({"fail": "not-an-operator", "got": type(res).__name__})
         return fails
     converting = q[0] in CONVERTING and not (q[0] == "to" and q[1] == "dev")
-    want_dt = NDT[tgt] if converting else o.dtype
+    want_dt = NDT[tgt] if converting else case.dt0
     # structure and flags
     a_out = case.obs
     structural = not (q[0] == "evaluate_kernel" and case.oin[1] in ("CAddedDiag", "CKronAddedDiag", "CLowRankRootAddedDiag"))
@@ -633,14 +648,16 @@ def direct_check(case, o, res, exc, meta, heavy=True):
         sh = storages(o) & storages(res)
         if sh:
             fails.append({"fail": "shared-storage", "n": len(sh)})
-    # dense value
-    try:
-        with warnings.catch_warnings():
-            warnings.simplefilter("ignore")
-            d_in = o.to_dense().detach()
-    except Exception as ex:
+    # every floating tensor reachable from the result, read from the objects (independent of the abstraction)
+    if not any(f["fail"] in ("leaf-dtype", "index-cast") for f in fails):
+        bad = [t.dtype for t in float_leaf_tensors(res) if t.dtype != NDT[tgt]] if converting else []
+        if bad:
+            fails.append({"fail": "leaf-dtype", "got": str(bad[0]), "want": tgt, "how": "objects"})
+    # dense value (the original was densified BEFORE the call)
+    if case.d_in is None:
         case.extra = "to_dense-of-the-original-raises"         # not a statement about the copy (C01's business)
         return sorted(fails, key=fail_rank)
+    d_in = case.d_in
     try:
         with warnings.catch_warnings():
             warnings.simplefilter("ignore")
@@ -649,7 +666,7 @@ def direct_check(case, o, res, exc, meta, heavy=True):
         fails.append({"fail": "raises:" + type(ex).__name__, "exc": "to_dense: " + repr(ex)[:100]})
         return sorted(fails, key=fail_rank)
     tol = 1e-4 if ("F32" in (src, tgt) or d_res.dtype == torch.float32 or d_in.dtype == torch.float32) else 1e-10
-    if res.dtype is not None and d_res.dtype != res.dtype:
+    if res.dtype is not None and d_res.dtype != res.dtype and not (case.mixed and not converting):
         fails.append({"fail": "returned-dtype", "site": "to_dense", "got": str(d_res.dtype), "want": str(res.dtype), "on": "result"})
     if not close(d_res, d_in, tol):
         fails.append({"fail": "dense-value", "max_abs_diff": (float((d_res.double() - d_in.double()).abs().max())
@@ -657,7 +674,7 @@ def direct_check(case, o, res, exc, meta, heavy=True):
     ref = dense_ref(case.e)
     if ref is not None and not close(ref, d_in, tol):
         case.extra = "oracle-differs-from-to_dense-of-the-original"
-    if heavy and res.dtype is not None:
+    if heavy and res.dtype is not None and not (case.mixed and not converting):
         fails += returned_dtype_failures(res, res.dtype, "result")
     return sorted(fails, key=fail_rank)
 
@@ -672,19 +689,39 @@ def all_pos_children(a):
     return out
 
 
-def run_case(meta, e, src, defdt, rg, q, heavy=True):
+def run_case(meta, e, src, defdt, rg, q, heavy=True, defdt0=None, mixed=False):
+    """defdt0: torch's default dtype while the operator is CONSTRUCTED (None: the same as defdt, the default dtype while
+    the query runs); mixed: the input deliberately combines a data-free operator of one dtype with data of another"""
     c = Case()
     c.e, c.src, c.defdt, c.rg, c.q = e, src, defdt, rg, tuple(q)
+    c.defdt0, c.mixed = defdt0, bool(mixed)
     c.extra = None
     c.obs, c.exc, c.fails, c.ok_abs = None, None, [], True
-    torch.set_default_dtype(NDT[defdt])
+    torch.set_default_dtype(NDT[defdt0 or defdt])
     with warnings.catch_warnings():
         warnings.simplefilter("ignore")
-        o = build(e, NDT[src])
+        try:
+            o = build(e, NDT[src])
+        finally:
+            torch.set_default_dtype(NDT[defdt])
         set_rg(o, rg)
         ab = Abs(meta)
         c.oin = ab.op(o)
         c.n0 = len(ab.stor)
+        # the original, observed BEFORE the call: dtype attribute, dense value, and everything its matrix depends on
+        try:
+            c.dt0 = o.dtype
+        except Exception:
+            c.dt0 = None
+        fl = float_leaf_tensors(o)
+        c.incons = bool(c.dt0 is not None and any(t.dtype != c.dt0 for t in fl))
+        c.d_in, c.d_in_exc = None, None
+        if q[0] not in ("repr", "dtype", "returned"):
+            try:
+                c.d_in = o.to_dense().detach().clone()
+            except Exception as ex:
+                c.d_in_exc = "%s: %s" % (type(ex).__name__, str(ex)[:80])
+        c.snap0 = sq.snapshot(o)
         res = None
         try:
             if q[0] == "repr":
@@ -706,6 +743,15 @@ def run_case(meta, e, src, defdt, rg, q, heavy=True):
         elif c.exc is None and q[0] in ("repr", "dtype"):
             c.obs = res
         c.fails = direct_check(c, o, res, c.exc, meta, heavy=heavy)
+        # source integrity: the original must be exactly what it was; the result must be a new object unless nothing
+        # had to change
+        integ = sq.diff_snapshot(c.snap0, sq.snapshot(o))
+        if c.exc is None and q[0] not in ("repr", "dtype", "returned"):
+            integ = sq.alias_failures(o, res, c.snap0, q, target_dtype(q, src)) + integ
+        if integ:
+            c.fails = sorted(c.fails + integ, key=fail_rank)
+        c.snap0 = None
+        c.d_in = None
     return c
 
 
@@ -915,7 +961,8 @@ def grid(ctx):
     for ent in common.load_known():
         cs = (ent.get("replay") or {}).get("case") if ent.get("property") == PROP else None
         if cs:
-            cells.append(("K:%s" % ent.get("id"), cs["expr"], cs["src"], cs["default_dtype"], cs["requires_grad"], tuple(cs["query"])))
+            cells.append(("K:%s" % ent.get("id"), cs["expr"], cs["src"], cs["default_dtype"], cs["requires_grad"], tuple(cs["query"]),
+                          {"defdt0": cs.get("construction_default_dtype"), "mixed": cs.get("mixed", False)}))
     for name, e in special_exprs(rng):
         try:
             build(e, torch.float64)
@@ -923,7 +970,36 @@ def grid(ctx):
             cells.append(("D:%s:unbuildable:%s" % (name, type(ex).__name__), None, None, None, None, None))
             continue
         add("D:%s" % name, e, DT_MIXED, core_q if quick else allq, RGS)
+    # H. default-dtype histories: constructed under default X (dtypes omitted wherever a constructor allows it), the
+    #    default is switched to Y, then the copy / conversion / rebuild runs
+    ok = lambda e: _buildable(e)
+    hk = 0
+    for name, e, qs in sq.family_h(rng, quick, ctx.seed, ok):
+        for (x, y) in (("F64", "F32"), ("F32", "F64")):
+            for q in qs:
+                hk += 1
+                cells.append((name, e, x, y, RGS[hk % len(RGS)], q, {"defdt0": x, "heavy": q[0] in ("clone", "detach", "cpu", "rebuild", "double", "float", "type") and hk % 2 == 0}))
+    # N. conversions of nestings whose first argument is a data-free operator with a nominal dtype
+    nk = 0
+    for name, eb, qs in sq.family_n(rng, quick, ctx.seed, ok):
+        mixed = name.endswith("_other")
+        for di, d in enumerate(("F64", "F32")):
+            e = eb(d)
+            for q in qs:
+                if mixed and q[0] in ("dtype", "returned"):
+                    continue
+                nk += 1
+                cells.append((name, e, d, ("F32", "F64")[(nk + di) % 2], RGS[nk % len(RGS)], q,
+                              {"mixed": mixed, "heavy": nk % 3 == 0 and not mixed}))
     return cells
+
+
+def _buildable(e):
+    try:
+        build(e, torch.float64)
+        return True
+    except Exception:
+        return False
 
 
 # ------------------------------------------------------------------------------------------ triage
@@ -936,9 +1012,14 @@ def same_failure(f, g):
     return f["fail"] == g["fail"]
 
 
+def same_kind(f, g):
+    return f["fail"] == g["fail"] and f.get("site") == g.get("site")
+
+
 def shrink(meta, c, f, budget=40):
-    """smallest sub-operator (and simplest query) on which the same kind of failure still shows"""
-    cur_e, cur_q = c.e, c.q
+    """smallest sub-operator (and simplest query) on which the same kind of failure still shows -> (expr, query,
+    failure, the case that was run on it)"""
+    cur_e, cur_q, cur_c = c.e, c.q, c
     steps = 0
     while steps < budget:
         found = None
@@ -948,54 +1029,88 @@ def shrink(meta, c, f, budget=40):
             qs.append(("to", "pos", tgt))
         if cur_q[0] in ("evaluate_kernel", "cpu"):
             qs.append(("rebuild",) if cur_q[0] == "evaluate_kernel" else ("clone",))
+        fallback = None
         for ch in sub_exprs(cur_e):
             for q2 in qs:
                 steps += 1
                 try:
-                    c2 = run_case(meta, ch, c.src, c.defdt, c.rg, q2, heavy=(f["fail"] == "returned-dtype"))
+                    c2 = run_case(meta, ch, c.src, c.defdt, c.rg, q2, heavy=(f["fail"] == "returned-dtype"), defdt0=c.defdt0,
+                                  mixed=c.mixed)
                 except Exception:
                     continue
                 if c2.fails:
                     # a sub-operator that already violates the property under the same query: the enclosing operator
-                    # cannot be right, the failure is attributed to the smallest failing sub-operator
-                    found = (ch, q2, primary(c2.fails))
-                    break
+                    # cannot be right, the failure is attributed to the smallest failing sub-operator - preferably one
+                    # that fails in the SAME way (same predicate, same probe site)
+                    same = [g for g in c2.fails if same_kind(f, g)]
+                    if same:
+                        found = (ch, q2, same[0], c2)
+                        break
+                    if fallback is None:
+                        fallback = (ch, q2, primary(c2.fails), c2)
             if found:
                 break
+        found = found or fallback
         if not found:
             break
-        cur_e, cur_q, f = found
-    return cur_e, cur_q, f
+        cur_e, cur_q, f, cur_c = found
+    return cur_e, cur_q, f, cur_c
+
+
+NOMINAL_PY = ("Permutation", "TransposePermutation")
+NON_CONVERTING = ("rebuild", "evaluate_kernel", "clone", "detach", "cpu", "to_dev", "dtype", "returned")
 
 
 def nominal_in(e):
-    return [root_class(x) for x in all_subs(e) if root_class(x) in ("Permutation", "TransposePermutation")]
+    return [root_class(x) for x in all_subs(e) if root_class(x) in NOMINAL_PY]
+
+
+def converted_nominal(e):
+    """does the INPUT contain a permutation operator whose nominal dtype was changed by an earlier conversion?"""
+    return any(x.get("cls") == "X" and root_class(x) in NOMINAL_PY and x.get("then") for x in all_subs(e))
+
+
+def opg(fam):
+    return "type" if fam in ("double", "float", "type") else fam
 
 
 def finding_key(meta, c, f):
-    """structural key of a failing case: class of the smallest failing sub-operator, query family, failure kind"""
+    """structural key of a failing case: class of the smallest failing sub-operator, query family, failure kind (and
+    probe site), whether the default dtype changed between construction and call.  Attribution rules are explicit:
+
+    * a dtype / returned-dtype mismatch on the result of a NON-converting call (or on the dtype / returned probes of the
+      original itself) when the ORIGINAL already reports a dtype different from its floating data and a permutation
+      operator (no floating data, hard-wired nominal dtype) sits in the tree: the copy is faithful, the inconsistency is
+      the original's -> fail = nominal-dtype, obs = original-inconsistent.  Nothing else is attributed to the nominal
+      dtype: in particular never a leaf dtype, an aliased result or a changed source operator;
+    * requires_grad that only SPREADS above a Kronecker node -> Kron."""
     kind = f["fail"]
+    extra = {"hist": c.hist()}
     if kind.split(":")[0] in ("flag", "kwarg", "class", "arity") and f.get("class") and f["class"] not in ("?", ""):
         cls = f["class"][1:] if f["class"].startswith("C") else f["class"]
-        return {"class": cls, "fail": kind}, c.e, c.q, f
-    e2, q2, f2 = shrink(meta, c, f)
+        return dict({"class": cls, "fail": kind}, **extra), c.e, c.q, f
+    e2, q2, f2, c2 = shrink(meta, c, f)
     cls = root_class(e2)
     kind = f2["fail"]
+    fam = family(q2)
+    if converted_nominal(e2) and fam != "to":
+        extra["nominal"] = "converted"      # (to() sets the nominal dtype itself: never attributed to an earlier conversion)
     if kind.split(":")[0] in ("flag", "kwarg", "class", "arity") and f2.get("class") and f2["class"] not in ("?", ""):
-        return {"class": f2["class"][1:] if f2["class"].startswith("C") else f2["class"], "fail": kind}, e2, q2, f2
-    if kind in ("dtype", "returned-dtype", "leaf-dtype"):
+        return dict({"class": f2["class"][1:] if f2["class"].startswith("C") else f2["class"], "fail": kind}, **extra), e2, q2, f2
+    if kind in ("dtype", "returned-dtype") and fam in NON_CONVERTING and c2.incons and not c2.mixed:
         nom = nominal_in(e2)
-        if nom and cls not in ("Zero",):
-            # an operator class without floating data and a hard-wired dtype sits in the tree: every dtype mismatch of the
-            # enclosing operators is its consequence
-            return {"class": nom[0], "fail": "nominal-dtype"}, e2, q2, f2
+        if nom and cls not in NOMINAL_PY:
+            return dict({"class": nom[0], "fail": "nominal-dtype", "obs": "original-inconsistent"}, **extra), e2, q2, f2
     if kind == "requires_grad" and cls != "Kron" and spread_only(f2):
         kr = [root_class(x) for x in all_subs(e2) if root_class(x) in ("Kron", "KronTriangular", "KronDiag", "SumKron", "KronAddedDiag")]
         if kr:
             # requires_grad only SPREADS (no tensor lost its flag) and a Kronecker operator sits below: its constructor
             # re-applies requires_grad_ per factor whenever an enclosing constructor rebuilds it with a batch shape
-            return {"class": "Kron", "fail": "requires_grad"}, e2, q2, f2
-    return {"class": cls, "op": family(q2), "fail": kind}, e2, q2, f2
+            return dict({"class": "Kron", "fail": "requires_grad"}, **extra), e2, q2, f2
+    key = {"class": cls, "op": fam, "opg": opg(fam), "fail": kind}
+    if f2.get("site"):
+        key["site"] = f2["site"]
+    return dict(key, **extra), e2, q2, f2
 
 
 def spread_only(f):
@@ -1010,7 +1125,9 @@ def report(ctx, meta, c, model_disagrees):
     key, e2, q2, f2 = finding_key(meta, c, f)
     replay = {"kind": "property-failure", "case": c.spec(), "failures": c.fails[:6], "exception": c.exc,
               "shrunk": {"expr": e2, "query": list(q2)}, "model_disagrees": bool(model_disagrees),
-              "what": "%s on %s.%s (data %s, default %s)" % (f2["fail"], describe(e2), family(q2), c.src, c.defdt)}
+              "what": "%s on %s.%s (data %s, default dtype %s%s)" % (
+                  f2["fail"], describe(e2), family(q2), c.src, c.defdt,
+                  (", constructed while the default dtype was %s" % c.defdt0) if c.hist() != "none" else "")}
     return ctx.violation(replay, key=key), key
 
 
@@ -1018,12 +1135,15 @@ def report(ctx, meta, c, model_disagrees):
 
 def execute(ctx, meta, cells, heavy_every=3):
     cases, skipped = [], []
-    for i, (name, e, src, defdt, rg, q) in enumerate(cells):
+    for i, cell in enumerate(cells):
+        name, e, src, defdt, rg, q = cell[:6]
+        opts = cell[6] if len(cell) > 6 else {}
         if e is None:
             skipped.append(name)
             continue
         try:
-            c = run_case(meta, e, src, defdt, rg, q, heavy=(q[0] in ("double", "float", "clone", "rebuild") and i % heavy_every == 0))
+            heavy = opts.get("heavy") if "heavy" in opts else (q[0] in ("double", "float", "clone", "rebuild") and i % heavy_every == 0)
+            c = run_case(meta, e, src, defdt, rg, q, heavy=heavy, defdt0=opts.get("defdt0"), mixed=opts.get("mixed", False))
         except Unabstractable as ex:
             skipped.append("%s:%s" % (name, ex))
             continue
@@ -1213,7 +1333,8 @@ def report_direct(ctx, meta, cases, mism, limit=None):
         if not c.fails:
             continue
         f = primary(c.fails)
-        pre = (root_class(c.e) if len(all_subs(c.e)) == 1 else describe(c.e), family(c.q), f["fail"], f.get("class"))
+        pre = (root_class(c.e) if len(all_subs(c.e)) == 1 else describe(c.e), family(c.q), f["fail"], f.get("class"), f.get("site"),
+               c.hist(), c.mixed)
         if pre in seen:
             continue
         seen[pre] = True
@@ -1241,9 +1362,11 @@ def replay(rp):
     if not cs:
         print("nothing to replay (obligation-level record):", json.dumps(rp)[:600])
         return 1
-    c = run_case(meta, cs["expr"], cs["src"], cs["default_dtype"], cs["requires_grad"], tuple(cs["query"]), heavy=True)
+    c = run_case(meta, cs["expr"], cs["src"], cs["default_dtype"], cs["requires_grad"], tuple(cs["query"]), heavy=True,
+                 defdt0=cs.get("construction_default_dtype"), mixed=cs.get("mixed", False))
     torch.set_default_dtype(torch.float32)
-    print("operator:", describe(c.e), " data dtype", c.src, " default dtype", c.defdt, " query", c.q)
+    print("operator:", describe(c.e), " data dtype", c.src, " default dtype", c.defdt,
+          "(constructed under %s)" % c.defdt0 if c.defdt0 else "", " query", c.q)
     print("raised:" if c.exc else "returned:", c.exc or (lit(c.obs) if isinstance(c.obs, tuple) else c.obs))
     for f in c.fails:
         print("property failure:", json.dumps(f))
